@@ -96,3 +96,5 @@ SPEC = {'id': 'C08',
              'messages.DecodeClientPollRequest / DecodeAnswerRequest and util.DeserializeSessionDescription as the recording broker (C12, C13); plain encoding/json as fallback',
              'Go stdlib modelled by hand: net.ParseIP, IP.To4, IP.IsUnspecified, IP.IsLoopback'],
  'assumptions': ['descriptions handed to StripLocalAddresses carry ICE candidates only as media-level attributes (as pion emits them)']}
+
+SPEC['thorough_passes'] = 4  # the thorough tier runs the whole harness under this many consecutive seeds
